@@ -175,6 +175,7 @@ func TestC03RR(t *testing.T) {
 		evs := res.Events
 		firstHex := map[int]string{}
 		last, epochs, across := 0, 0, false
+		lastCh := -1
 		epochAtFirst := map[int]int{}
 		for i, e := range evs {
 			switch {
@@ -182,6 +183,14 @@ func TestC03RR(t *testing.T) {
 				epochs++
 			case e.K == "out" && e.Svc == "TunnelReq":
 				h, seen := firstHex[e.Tag]
+				if !seen && p.DefConn.Ch != -1 {
+					// the first request that carries a newly assigned channel opens that connection's numbering ("the
+					// sequence numbers of both directions restart at 0", C09): whatever was counted on the old one is gone
+					if lastCh >= 0 && e.Ch != lastCh && e.Seq != 0 {
+						return failTrace(evs, i, "counter-not-reset", "telegram %d is the first request transmitted with the newly assigned channel %d and carries sequence number %d (the previous request went out on channel %d)", e.Tag, e.Ch, e.Seq, lastCh)
+					}
+					lastCh = e.Ch
+				}
 				switch {
 				case !seen:
 					firstHex[e.Tag], epochAtFirst[e.Tag] = e.Hex, epochs
